@@ -39,7 +39,6 @@
    Deviations (CONSTANT Deviations \subseteq DeviationNames).  {} = reference design; TLC proves the
    invariants.  As-built deviations (each one an OPEN finding in findings/c12.json):
        UncappedNonEmptyRepeat      ODS: repeats of non-empty cells / rows are materialised without a cap
-       ExtractAllIgnoresFilter     7z: extractall() decompresses and writes every folder / member
        UnboundedVectorCount        olefile: VT_VECTOR element count not checked against the data length
        UncappedSpaceCount          ODF: <text:s text:c="N"/> materialises N spaces
        DenseGridFromSparseCells    XLSX: rows/cells between sparse cells are padded (rows x columns)
@@ -50,7 +49,12 @@
        proposed_fixes/c12-7z-lzma2-output-limit.diff), GuardOnLinkSize (read_file compares the size of a
        symbolic link instead of the file it names), FollowLinksUnchecked (tar link entries pass the member
        guard with their own size 0 and are followed to bytes above the limit), ReadByNameLast (a member is
-       checked as an entry but read by NAME, which resolves to the last entry of that name).
+       checked as an entry but read by NAME, which resolves to the last entry of that name),
+       EmptyFileTakesSizeSlot (7z: an empty-file entry consumes a slot of the per-stream size table, so later
+       members are filtered with their successor's size), ConfigureForgetsLimit (a configuration call that does
+       not mention max_memory_size resets it to the 50 MiB constant), ImageScanNoProgress (a picture-header
+       scanner that does not advance over a zero-length segment), ExtractAllIgnoresFilter (7z: extractall()
+       decompresses and writes every folder / member -- the behaviour before /repo 62243a0, KF-C12-02 fixed).
 
    DON'T-CAREs: max_file_size < 0; whether read_file stats the file when max_file_size = 0; the attributes
    of the TooLarge exception; in-memory decompression of a skipped member that shares a solid 7z folder with
@@ -62,10 +66,12 @@ EXTENDS Naturals, Sequences, FiniteSets, TLC
 
 CONSTANT Deviations
 
-AsBuiltDeviations == {"UncappedNonEmptyRepeat", "ExtractAllIgnoresFilter",
+AsBuiltDeviations == {"UncappedNonEmptyRepeat",
                       "UnboundedVectorCount", "UncappedSpaceCount", "DenseGridFromSparseCells", "XrefPrevLoop"}
 SensitivityDeviations == {"FlipCompare", "GuardAfterLoad", "DecompressBeforeCheck", "NoEmptyCap", "PlainXmlParser",
-                          "NoOutputLimit", "GuardOnLinkSize", "FollowLinksUnchecked", "ReadByNameLast"}
+                          "NoOutputLimit", "GuardOnLinkSize", "FollowLinksUnchecked", "ReadByNameLast",
+                          "EmptyFileTakesSizeSlot", "ConfigureForgetsLimit", "ImageScanNoProgress",
+                          "ExtractAllIgnoresFilter"}
 DeviationNames == AsBuiltDeviations \cup SensitivityDeviations
 ASSUME Deviations \subseteq DeviationNames
 
@@ -118,7 +124,7 @@ EmptyRepeatCollapse == 100 \* as built: an EMPTY cell / row repeated more than t
 
 (* ------------------------------------------------------------------ scenarios *)
 \* one record shape for everything (unused fields have neutral values)
-Scn(k) == [k |-> k, kind |-> "", max |-> 0, size |-> 0, via |-> 0, lsize |-> 0, lim |-> 0, lim2 |-> 0, members |-> <<>>,
+Scn(k) == [k |-> k, kind |-> "", max |-> 0, size |-> 0, via |-> 0, lsize |-> 0, lim |-> 0, lim2 |-> 0, calls |-> <<>>, members |-> <<>>,
            c |-> "", mag |-> 0, pos |-> "", skib |-> 0]
 
 \* read_file: `via` = number of symbolic links between the path handed to read_file and the file (0 = the
@@ -130,8 +136,19 @@ Scn(k) == [k |-> k, kind |-> "", max |-> 0, size |-> 0, via |-> 0, lsize |-> 0, 
 \*           | "hard" | "sym" (tar link entries: size 0, their bytes are those of `target`) | "fifo" | "chr"
 \*   target  entry index a link points at (0 = the target is not in the archive)
 Mem(size, folder, name, type, target) == [size |-> size, folder |-> folder, name |-> name, type |-> type, target |-> target]
+\*           | "empty" | "anti" (7z entries without a data stream: empty file, anti item) | "dir"   -- size 0, folder 0
+\* calls: the configure_archive_extraction(...) calls made before the extraction, in order; a call is
+\*   [mm |-> max_memory_size given (0 = not mentioned / None), opt |-> "" or the name of ONE other option given]
+\* lim: the per-member limit in force after those calls -- the DECLARATIVE meaning of the history:
+\*   an option a call does not mention keeps its value (LimitAfter); the machine replays the calls one by one.
 DataTypes == {"reg", "sparse", "pax"}
 LinkTypes == {"hard", "sym"}
+Call(mm, opt) == [mm |-> mm, opt |-> opt]
+RECURSIVE LimitAfterFrom(_, _, _)
+LimitAfterFrom(calls, i, lim) ==
+    IF i > Len(calls) THEN lim ELSE LimitAfterFrom(calls, i + 1, IF calls[i].mm > 0 THEN calls[i].mm ELSE lim)
+LimitAfter(calls) == LimitAfterFrom(calls, 1, MaxMemorySize)
+CallsFor(lim) == IF lim = MaxMemorySize THEN <<>> ELSE <<Call(lim, "")>>
 
 (* ------------------------------------------------------------------ part (b): cases and their items *)
 \* The ODS sheet of a case: rows of [rep, cells]; a cell is [rep, empty]
@@ -194,6 +211,7 @@ Items(c, mag, pos, skib) ==
       [] c \in {"targz_ratio", "zip_ratio"} ->
            IF pos = "skipped" THEN <<Item(mag, ByteLo, ByteHi, 0, "")>> ELSE <<Item(mag, ByteLo, ByteHi, mag, "")>>
       [] c = "mbox_from" -> <<Item(mag, 64, 8192, mag, "")>>
+      [] c = "image_header" -> <<Item(SAT, 1024, 1024, 2000, "ImageScanNoProgress")>>   \* a header scan visits each segment once
       [] c = "pdf_loop" -> IF pos = "prev_loop" THEN <<Item(SAT, 1024, 1024, 1, "XrefPrevLoop")>>
                            ELSE <<Item(mag, SlotLo, SlotHi, 1, "")>>
       [] OTHER -> <<>>
@@ -221,7 +239,8 @@ VARIABLES scn,      \* the scenario (fixed in Init)
                     \*           delivered |-> entries whose bytes reached an extractor]
           outcome,  \* "" | "Ok" | "TooLarge"
           work,     \* part (b): <<workLo, workHi>> KiB materialised so far
-          cur       \* part (b): cursor <<row, cell, slots, nrows, maxc>> (ODS) or item index
+          cur       \* part (b): cursor <<row, cell, slots, nrows, maxc>> (ODS) or item index;
+                    \* members: <<next configuration call, per-member limit in force, 0, 0, 0>>
 
 vars == <<scn, pc, hist, st, inmem, ondisk, io, outcome, work, cur>>
 
@@ -230,7 +249,7 @@ Say(a, m) == hist' = Append(hist, E(a, m))
 Members == DOMAIN scn.members
 Size(m) == scn.members[m].size
 Folder(m) == scn.members[m].folder
-Folders == {Folder(m) : m \in Members}
+Folders == {Folder(m) : m \in {x \in Members : scn.members[x].type \in DataTypes}}
 Wanted(m) == st[m] = "kept"
 MType(m) == scn.members[m].type
 IsData(m) == MType(m) \in DataTypes
@@ -246,6 +265,14 @@ LastSameName(m) == CHOOSE o \in Members : SameName(o, m) /\ \A x \in Members : S
 DataOf(m) == IF Dev("ReadByNameLast") THEN LastSameName(Src(m)) ELSE Src(m)
 \* the size the per-member guard looks at: the size of the bytes that would be read -- or the link entry's own 0
 GuardedSize(m) == IF IsLink(m) /\ Dev("FollowLinksUnchecked") THEN Size(m) ELSE Size(Src(m))
+\* 7z: the size the reader reports for a data entry comes from a per-STREAM table; entries without a stream
+\* (empty files, directories, anti items) have no slot in it.  The deviation gives them one, so every later data
+\* entry is reported with its successor's size and the last one with 0.
+DataBefore(m) == Cardinality({x \in Members : x < m /\ IsData(x)})
+StreamlessFilesBefore(m) == Cardinality({x \in Members : x < m /\ MType(x) \in {"empty", "anti"}})
+NthDataSize(n) == IF \E x \in Members : IsData(x) /\ DataBefore(x) = n - 1
+                  THEN Size(CHOOSE x \in Members : IsData(x) /\ DataBefore(x) = n - 1) ELSE 0
+SizeSeen(m) == IF Dev("EmptyFileTakesSizeSlot") THEN NthDataSize(DataBefore(m) + StreamlessFilesBefore(m) + 1) ELSE Size(m)
 LastOnDisk(m) == CHOOSE o \in ondisk : SameName(o, m) /\ \A x \in ondisk : SameName(x, m) => x <= o
 
 InitWith(s) ==
@@ -257,7 +284,7 @@ InitWith(s) ==
     /\ io = [got |-> [m \in DOMAIN s.members |-> 0], delivered |-> {}]
     /\ outcome = ""
     /\ work = <<0, 0>>
-    /\ cur = <<1, 1, 0, 0, 0>>
+    /\ cur = IF s.k = "members" THEN <<1, MaxMemorySize, 0, 0, 0>> ELSE <<1, 1, 0, 0, 0>>
 
 (* ---- read_file ---- *)
 RF == scn.k = "read_file"
@@ -324,19 +351,28 @@ SZ_Finish ==
 (* ---- member loops ---- *)
 MB == scn.k = "members"
 Streaming == scn.kind \in {"zip", "tar"}
+\* configure_archive_extraction(...): one call per step; an option that is not mentioned keeps its value
+Configured == cur[1] > Len(scn.calls)
+LimNow == cur[2]
+MB_Configure ==
+           /\ MB /\ ~Configured
+           /\ LET c == scn.calls[cur[1]] IN
+              cur' = <<cur[1] + 1,
+                       IF c.mm > 0 THEN c.mm ELSE IF Dev("ConfigureForgetsLimit") THEN scn.lim2 ELSE cur[2], 0, 0, 0>>
+           /\ UNCHANGED <<scn, pc, hist, st, inmem, ondisk, io, outcome, work>>
 \* zip / tar: check a member, then decompress it into memory, then extract it (any member order)
 \* an entry may always be left out when it is not a data entry (links, devices: the code skips everything
 \* that is not a regular file); a data entry only when it is above the limit
 MB_Skip(m) ==
-           /\ MB /\ Streaming /\ st[m] = "new" /\ ~Dev("DecompressBeforeCheck")
-           /\ (~IsData(m) \/ Over(Size(m), scn.lim))
+           /\ MB /\ Configured /\ Streaming /\ st[m] = "new" /\ ~Dev("DecompressBeforeCheck")
+           /\ (~IsData(m) \/ Over(Size(m), LimNow))
            /\ st' = [st EXCEPT ![m] = "skipped"] /\ Say("Skip", m)
            /\ UNCHANGED <<scn, pc, inmem, ondisk, io, outcome, work, cur>>
 \* reading entry m decompresses DataOf(m); following a link to bytes within the limit is not forbidden
 MB_Decompress(m) ==
-           /\ MB /\ Streaming /\ st[m] = "new" /\ ~NoData(m)
-           /\ (~Over(GuardedSize(m), scn.lim) \/ Dev("DecompressBeforeCheck"))
-           /\ st' = [st EXCEPT ![m] = IF Over(GuardedSize(m), scn.lim) THEN "skipped" ELSE "mem"]
+           /\ MB /\ Configured /\ Streaming /\ st[m] = "new" /\ ~NoData(m)
+           /\ (~Over(GuardedSize(m), LimNow) \/ Dev("DecompressBeforeCheck"))
+           /\ st' = [st EXCEPT ![m] = IF Over(GuardedSize(m), LimNow) THEN "skipped" ELSE "mem"]
            /\ inmem' = inmem \cup {DataOf(m)}
            /\ io' = [io EXCEPT !.got[m] = DataOf(m)]
            /\ Say("Decompress", DataOf(m))
@@ -352,8 +388,8 @@ MB_Extract(m) ==
            /\ UNCHANGED <<scn, pc, inmem, ondisk, outcome, work, cur>>
 \* 7z: filter everything (pc "start"), decompress folders and write members (pc "unpack"), read back (pc "read")
 MB7_Filter(m) ==
-           /\ MB /\ scn.kind = "7z" /\ pc = "start" /\ st[m] = "new"
-           /\ st' = [st EXCEPT ![m] = IF Over(Size(m), scn.lim) THEN "skipped" ELSE "kept"]
+           /\ MB /\ Configured /\ scn.kind = "7z" /\ pc = "start" /\ st[m] = "new"
+           /\ st' = [st EXCEPT ![m] = IF ~IsData(m) \/ Over(SizeSeen(m), LimNow) THEN "skipped" ELSE "kept"]
            /\ UNCHANGED <<scn, pc, hist, inmem, ondisk, io, outcome, work, cur>>
 MB7_Filtered ==
            /\ MB /\ scn.kind = "7z" /\ pc = "start" /\ \A m \in Members : st[m] # "new"
@@ -382,7 +418,7 @@ MB7_Read(m, e) ==
            /\ io' = [io EXCEPT !.got[m] = e]
            /\ UNCHANGED <<scn, pc, hist, inmem, ondisk, outcome, work, cur>>
 MB_Finish ==
-           /\ MB /\ pc \in (IF scn.kind = "7z" THEN {"read"} ELSE {"start"})
+           /\ MB /\ Configured /\ pc \in (IF scn.kind = "7z" THEN {"read"} ELSE {"start"})
            /\ (\A m \in Members : st[m] \in {"skipped", "dropped", "extracted"})
            /\ pc' = "done" /\ outcome' = "Ok" /\ UNCHANGED <<scn, hist, st, inmem, ondisk, io, work, cur>>
 
@@ -423,6 +459,7 @@ Next == \/ RF_Stat \/ RF_Disabled \/ RF_Refuse \/ RF_Pass \/ RF_Open \/ RF_Load 
         \/ SZ_Size \/ SZ_Refuse \/ SZ_Pass \/ SZ_Parse \/ SZ_LateGuard \/ SZ_Finish
         \/ \E m \in Members : MB_Skip(m) \/ MB_Decompress(m) \/ MB_Drop(m) \/ MB_Extract(m) \/ MB7_Filter(m)
         \/ \E m \in Members : \E e \in Members : MB7_Read(m, e)
+        \/ MB_Configure
         \/ \E f \in Folders : MB7_Folder(f)
         \/ MB7_Filtered \/ MB7_Unpacked \/ MB_Finish
         \/ CB_OdsCell \/ CB_OdsRowEnd \/ CB_OdsSheetEnd \/ CB_Expand \/ CB_Finish
@@ -459,6 +496,9 @@ Inv_MemberBoundary ==
             /\ IsData(m) => ((st[m] = "extracted") <=> MustExtract(Size(m), scn.lim, scn.lim2))
             /\ (~IsData(m) /\ st[m] = "extracted") => (~NoData(m) /\ MustExtract(Size(Src(m)), scn.lim, scn.lim2))
             /\ \A e \in io.delivered : MustExtract(Size(e), scn.lim, scn.lim2)
+
+\* the limit the machine ends up with is what the history of calls means
+Inv_ConfigMeaning == (scn.k = "members" /\ Configured) => (LimNow = LimitAfter(scn.calls) /\ scn.lim = LimitAfter(scn.calls))
 
 \* part (b): even the ceiling of the model's cost stays within A + B * size  (reference design)
 Class == Classify(work[1], work[2], scn.skib)
